@@ -504,3 +504,26 @@ for _p in ("C01", "C13", "C15", "C16"):
 for _p in ("C03", "C04", "C14"):
     VARIANTS.append({"prop": _p, "id": f"{_p}:benign3-docstring-and-debug", "expect": "S", "rule": "", "edits": [
         {"file": R + "covered_files.py", "old": "    if path.is_symlink():\n", "new": "    # symlinks are never covered files\n    if path.is_symlink():\n"}]})
+# ----------------------------------------------------------------- benign helper extraction (K9 substitutes the helper back)
+_WB_OLD = "        with open(path, \"w\", encoding=\"utf-8\", newline=line_ending) as fp:\n            fp.write(bom + output)\n"
+_WB_NEW = "        _write_back(path, bom + output, line_ending)\n"
+_WB_DEF_OLD = "def add_header_to_file(\n"
+_WB_DEF_NEW = "def _write_back(target, data, eol):\n    with open(target, \"w\", encoding=\"utf-8\", newline=eol) as fp:\n        fp.write(data)\n\n\ndef add_header_to_file(\n"
+for _p in ("C08", "C11", "C07", "C10", "C16"):
+    VARIANTS.append({"prop": _p, "id": f"{_p}:benign4-helper-write-back", "expect": "S", "rule": "", "edits": [
+        {"file": ANP, "old": _WB_OLD, "new": _WB_NEW}, {"file": ANP, "old": _WB_DEF_OLD, "new": _WB_DEF_NEW}]})
+for _p in ("C19", "C15"):
+    VARIANTS.append({"prop": _p, "id": f"{_p}:benign4-helper-refuse-existing", "expect": "S", "rule": "", "edits": [
+        {"file": DLP, "old": "    if destination.exists():\n        raise FileExistsError(\n            errno.EEXIST, os.strerror(errno.EEXIST), str(destination)\n        )\n",
+         "new": "    _refuse_existing(destination)\n"},
+        {"file": DLP, "old": "def put_license_in_file(\n", "new": "def _refuse_existing(target):\n    if target.exists():\n        raise FileExistsError(errno.EEXIST, os.strerror(errno.EEXIST), str(target))\n\n\ndef put_license_in_file(\n"}]})
+for _p in ("C20", "C09"):
+    VARIANTS.append({"prop": _p, "id": f"{_p}:benign4-helper-year-range", "expect": "S", "rule": "", "edits": [
+        {"file": CPP, "old": "        year: Optional[str] = None\n        if years:\n            if min(years) == max(years):\n                year = min(years)\n            else:\n                year = f\"{min(years)} - {max(years)}\"\n",
+         "new": "        year = _year_range(years)\n"},
+        {"file": CPP, "old": "def merge_copyright_lines(", "new": "def _year_range(all_years):\n    span = None\n    if all_years:\n        if min(all_years) == max(all_years):\n            span = min(all_years)\n        else:\n            span = f\"{min(all_years)} - {max(all_years)}\"\n    return span\n\n\ndef merge_copyright_lines("}]})
+for _p in ("C04", "C14"):
+    VARIANTS.append({"prop": _p, "id": f"{_p}:benign4-helper-closest", "expect": "S", "rule": "", "edits": [
+        {"file": PRJ, "old": "            for closest in global_results[PrecedenceType.CLOSEST]:\n                if file_result.copyright_lines:\n                    closest = closest.copy(copyright_lines=set())\n                else:\n                    closest = closest.copy(spdx_expressions=set())\n                if closest.contains_copyright_or_licensing():\n                    result.append(closest)\n",
+         "new": "            _add_missing_half(result, file_result, global_results[PrecedenceType.CLOSEST])\n"},
+        {"file": PRJ, "old": "class Project:\n", "new": "def _add_missing_half(acc, own, candidates):\n    for closest in candidates:\n        if own.copyright_lines:\n            closest = closest.copy(copyright_lines=set())\n        else:\n            closest = closest.copy(spdx_expressions=set())\n        if closest.contains_copyright_or_licensing():\n            acc.append(closest)\n\n\nclass Project:\n"}]})
